@@ -221,6 +221,16 @@ theorem inv_tscCall (sc stt : Bool) (T : Term) (s : Core) (g gt : Option Win) (h
       tsc := fun h => by cases h
       rColors := hI.rColors, rNv := hI.rNv, rProbe := hI.rProbe, ratio := hI.ratio }
 
+theorem tscRaiseCall_state (s : Core) : (tscRaiseCall s).1 = s := by
+  unfold tscRaiseCall; split
+  · simp only []; split <;> rfl
+  · rfl
+
+theorem tscRaiseCall_reads (s : Core) : readsCell (tscRaiseCall s).2.2 = false := by
+  unfold tscRaiseCall; split
+  · simp only []; split <;> simp [readsCell]
+  · simp [readsCell]
+
 theorem probeCall_reads (s : Core) (a : Nat) : readsCell (probeCall s a).2.2 = false := by
   unfold probeCall; split <;> simp [readsCell]
 
@@ -418,7 +428,7 @@ theorem getCellRatio_cases (T : Term) (s : Core) :
 
 theorem inv_step (sc stt : Bool) (T : Term) (s : St) (g gt : Option Win) (op : Op) (hI : Inv sc stt T s.toCore g gt)
     (hp : readsCell (step T s op).2.2 = true → sc = true → provisoAt g s.win)
-    (hpt : op = .tsc → stt = true → provisoAt gt s.win)
+    (hpt : (op = .tsc ∨ op = .tscRaise) → stt = true → provisoAt gt s.win)
     (hr : ∀ w, op = .resize w → w.ok) :
     Inv sc stt T (step T s op).1.toCore (ghostStep T s g op) (tscGhostStep s gt op) := by
   cases op with
@@ -500,7 +510,14 @@ theorem inv_step (sc stt : Bool) (T : Term) (s : St) (g gt : Option Win) (op : O
     · exact inv_getNV sc stt T s.toCore g gt hI
   | tsc =>
     simp only [step, St.lift, ghostStep, effectiveToggle, tscGhostStep, tscCall_reads, Bool.false_eq_true, if_false]
-    exact inv_tscCall sc stt T s.toCore g gt hI (hpt rfl)
+    exact inv_tscCall sc stt T s.toCore g gt hI (hpt (Or.inl rfl))
+  | tscRaise =>
+    simp only [step, St.lift, ghostStep, effectiveToggle, tscGhostStep, tscRaiseCall_reads, Bool.false_eq_true,
+      if_false, tscRaiseCall_state]
+    exact hI
+  | startProc =>
+    simp only [step, ghostStep, effectiveToggle, tscGhostStep, readsCell_nil, Bool.false_eq_true, if_false]
+    exact hI
   | tscInval =>
     simp only [step, ghostStep, effectiveToggle, tscGhostStep, readsCell_nil, Bool.false_eq_true, if_false]
     exact { winOk := hI.winOk, gOk := hI.gOk, cell := hI.cell, colors := hI.colors, nv := hI.nv, tsc := fun _ => Or.inl rfl
